@@ -5,7 +5,7 @@
 # /tmp/mutiso and is removed with `tools/run_mutants_isolated.sh --clean`.
 # usage: tools/run_mutants_isolated.sh <dir-with-patches> [tier]
 set -u
-BASE=/tmp/mutiso
+BASE="${MUTISO_BASE:-/tmp/mutiso}"
 WT=$BASE/repo; SC=$BASE/sim; ROOT=$BASE/root
 if [ "${1:-}" = "--clean" ]; then
   git -C /repo worktree remove --force "$WT" 2>/dev/null; git -C /repo worktree prune; rm -rf "$BASE"; exit 0
